@@ -21,7 +21,7 @@ SPEC = {
     "vk_next_host_delim_special": {"p0": "upto_n"}, "vk_next_host_delim": {"p0": "upto_n"},
     "vk_host_delim_location": {"p0": [0, 1]},
     "vk_url_parse_ipv4": {"max_n": 15, "min_n": 1}, "vk_agg_parse_ipv4": {"max_n": 10, "min_n": 1},
-    "vk_url_parse_ipv6": {"max_n": 0}, "vk_agg_parse_ipv6": {"max_n": 0},
+    "vk_url_parse_ipv6": {"max_n": 45, "min_n": 0}, "vk_agg_parse_ipv6": {"max_n": 0},
     "vk_to_lower_ascii": {"cap_is_n": True},
     "vk_parse_state": {"skip": True}, "vk_set_limit": {"skip": True}, "vk_capi_get": {"state": True}, "vk_capi_owned": {"skip": True},
     "vk_capi_failed_mutators": {"max_n": 6}, "vk_canon": {"p0": [0, 1, 2, 3, 4, 5, 6, 7], "p1": [0, 1, 4, 5], "max_n": 5},
